@@ -115,7 +115,7 @@ def mk_fee(dec_a, dec_l):
             ga = [e for e in Ev if e[0] == 'call' and re.search(r'get_asset_amount$', e[1]) and cellname(e[2][0]) == asset_bank]
             if ga:
                 ob.prove(eng, r, hyp, ga[0][3].payload[0][0].e >= X, 'seize guarded: liquidatee deposit (pre) >= seized amount, so the bypass leg cannot open a debt')
-            else: ob.fail('no pre-balance read before the seize')
+            else: ob.structural('no pre-balance read before the seize', 'no-overliquidation-guard')
             # fraction of the fee is booked to the liability bank's insurance bucket
             from specs.C12 import find_accounts
         ob.notes.append(f'{n_ok} accepting paths examined')
